@@ -212,6 +212,20 @@ static void observe(void)
 static const struct timeval TV[3] = { { 0, 0 }, { 1, 0 }, { 2, 0 } };
 static int n_leaves_add_tv, n_leaves_loop_cb, n_refused;
 
+#define C02_NSEL 26
+#ifndef C02_SELMIN
+#define C02_SELMIN 0
+#endif
+#ifndef C02_SELMAX
+#define C02_SELMAX (C02_NSEL - 1)
+#endif
+#ifndef C02_PREFIX
+#define C02_PREFIX_LEN 0
+static const int c02_prefix[1] = { 0 };
+#else
+static const int c02_prefix[] = { C02_PREFIX };
+#define C02_PREFIX_LEN ((int)(sizeof(c02_prefix) / sizeof(c02_prefix[0])))
+#endif
 static void run(int depth);
 static void op_add(int k, int tvi, int depth)
 {
@@ -283,39 +297,47 @@ static void run(int depth)
 	int op, k;
 	if (depth >= C02_LEN) {
 		if (n_leaves_add_tv) VP_WITNESS("history with a timed add");
-#if C02_LEN >= 2
+#ifdef C02_EXPECT_CB
 		if (n_leaves_loop_cb) VP_WITNESS("history in which a callback ran");
 #endif
+#ifdef C02_HAS_IO
 		if (n_refused) VP_WITNESS("history with a refused registration");
+#endif
 		VP_WITNESS("history complete");
 		return;
 	}
-#ifndef C02_OPMAX
-#define C02_OPMAX 8
-#endif
-#ifndef C02_OPMIN
-#define C02_OPMIN 0
-#endif
-	op = (int)vp_range(C02_OPMIN, C02_OPMAX);
-	k = vp_bool();
-	switch (op) {
+	/* selector: 12 calls per event x 2 events + 2 loop calls = 26 alternatives.  The first
+	 * C02_PREFIX_LEN calls are fixed by the obligation (the driver enumerates all of them), the
+	 * remaining ones are chosen by the solver. */
+	op = depth < C02_PREFIX_LEN ? c02_prefix[depth] : (int)vp_range(C02_SELMIN, C02_SELMAX);
+	k = op >= 12 && op < 24;
+	/* cbmc limitation (measured): struct event keeps {ev_io_next, ev_io_timeout} and
+	 * {ev_signal_next, ev_ncalls, ev_pncalls} in a union; once two members of it have been
+	 * written, reads of the first are byte_extract(byte_update(byte_update(..))) terms that
+	 * the simplifier does not fold and symex walks every infeasible list operation.  So a
+	 * persistent I/O event is never given a timeout and a signal event is never activated by
+	 * hand in these histories (stated in OUT); all other combinations are explored. */
+	if (op < 24) {
+		int o = op % 12;
+		if (kind[k] == K_IO_P) __CPROVER_assume(o != 1 && o != 2);
+		if (kind[k] == K_SIG_P) __CPROVER_assume(o < 4 || o > 8);
+	}
+	switch (op < 24 ? op % 12 : op - 12) {
 	case 0: PER_EVENT(op_add(K, -1, depth)); break;
 	case 1: PER_EVENT(op_add(K, 0, depth)); break;
 	case 2: PER_EVENT(op_add(K, 1, depth)); break;
 	case 3: PER_EVENT(op_del(K, depth)); break;
-	case 4: {
-		/* result flags and ncalls are choices too: each branch runs the library with concrete
-		 * values (a symbolic ev_res makes event_add's "active because of a timeout?" test symbolic) */
-		int w = (int)vp_range(0, 3), n2 = vp_bool();
-		if (w == 0) { if (n2) PER_EVENT(op_active(K, EV_READ, 2, depth)); else PER_EVENT(op_active(K, EV_READ, 1, depth)); }
-		else if (w == 1) PER_EVENT(op_active(K, EV_TIMEOUT, 1, depth));
-		else if (w == 2) PER_EVENT(op_active(K, EV_READ | EV_WRITE | EV_TIMEOUT, 1, depth));
-		else PER_EVENT(op_active(K, 0, 1, depth));
-		break;
-	}
-	case 5: PER_EVENT(op_rmtimer(K, depth)); break;
-	case 6: if (vp_bool()) PER_EVENT(op_prio(K, 0, depth)); else PER_EVENT(op_prio(K, 1, depth)); break;
-	case 7: op_loop(0, depth); break;
+	/* result flags and ncalls are alternatives too: each branch runs the library with concrete
+	 * values (a symbolic ev_res makes event_add's "active because of a timeout?" test symbolic) */
+	case 4: PER_EVENT(op_active(K, EV_READ, 1, depth)); break;
+	case 5: PER_EVENT(op_active(K, EV_READ, 2, depth)); break;
+	case 6: PER_EVENT(op_active(K, EV_TIMEOUT, 1, depth)); break;
+	case 7: PER_EVENT(op_active(K, EV_READ | EV_WRITE | EV_TIMEOUT, 1, depth)); break;
+	case 8: PER_EVENT(op_active(K, 0, 1, depth)); break;
+	case 9: PER_EVENT(op_rmtimer(K, depth)); break;
+	case 10: PER_EVENT(op_prio(K, 0, depth)); break;
+	case 11: PER_EVENT(op_prio(K, 1, depth)); break;
+	case 12: op_loop(0, depth); break;
 	default: op_loop(2, depth); break;
 	}
 }
